@@ -343,8 +343,10 @@ impl<'a, 'b> BindingsCollect<'a, 'b> {
                                     _ => None,
                                 };
                                 if let Some((extend, arg)) = res {
-                                    if let ResolvedIdent::Slot(_, id) =
-                                        id.node.payload.as_ref().unwrap()
+                                    // The identifier is unresolved when the name is not defined
+                                    // (which is reported as an error elsewhere).
+                                    if let Some(ResolvedIdent::Slot(_, id)) =
+                                        id.node.payload.as_ref()
                                     {
                                         let bind = if extend {
                                             BindExpr::ListExtend(*id, args.args[arg].expr())
